@@ -39,7 +39,7 @@ def judge(v, o, iface):
     b = gem.brief(o)
     if iface == 'cli':
         ok = o.get('exit') == 0
-        fail = o.get('exit') == 1
+        fail = isinstance(o.get('exit'), int) and o.get('exit') != 0      # "non-zero exit status"
         exc = o['exc'] if o['kind'] == 'exc' and o.get('class') != 'exit' else None
         mismatch = fail and any(lv == 'ERROR' for lv, _ in o['log'])
         incompat = mismatch
